@@ -1,7 +1,7 @@
 (* C23 — proofs about the write path with the holes regenerated from the source (C23/Gen.v) *)
 From Coq Require Import List NArith ZArith Bool Lia.
 Import ListNotations.
-From Cffi Require Import C35.PyStr C35.Model C35.Proofs C23.Model C23.Gen.
+From Cffi Require Import C35.PyStr C35.Model C35.Lemmas C23.Model C23.Gen.
 Open Scope N_scope.
 
 Lemma universal_nl_id c : no_cr c -> universal_nl c = c.
